@@ -141,7 +141,7 @@ def guards(prog):
     """{(fn path, predicate, node key): set(protected callee names)}"""
     out = {}
     for f in prog.fns("stylua_lib"):
-        if not f.path.startswith("formatters::") or f.path.startswith("formatters::trivia_util::"):
+        if "formatters::" not in f.path or "::tests::" in f.path:
             continue
         for b, t in f.calls():
             c = callee(t)
